@@ -28,7 +28,7 @@ import (
 )
 
 var (
-	scopeRegistryKey = keyForPrefixedStringMaps
+	scopeRegistryKey = registryKeyForPrefixedStringMaps
 
 	// Metrics related.
 	counterCardinalityName   = "tally.internal.counter_cardinality"
@@ -172,7 +172,7 @@ func (r *scopeRegistry) Subscope(parent *scope, prefix string, tags map[string]s
 	}
 
 	var (
-		buf = keyForPrefixedStringMapsAsKey(make([]byte, 0, 256), prefix, parent.tags, tags)
+		buf = registryKeyForPrefixedStringMapsAsKey(make([]byte, 0, 256), prefix, parent.tags, tags)
 		h   maphash.Hash
 	)
 
